@@ -1,0 +1,151 @@
+//! Verification hooks.
+//!
+//! Only compiled with `RUSTFLAGS="--cfg datamatrix_verif"`. Nothing in here
+//! changes the behaviour of the crate; it re-exports internals which the
+//! public API hides and provides a few counters for the planner.
+extern crate std;
+
+use alloc::vec::Vec;
+use core::cell::{Cell, RefCell};
+
+use crate::{EncodationType, SymbolList, SymbolSize};
+
+pub use crate::decodation::verif as decodation;
+pub use crate::errorcode::verif as errorcode;
+
+/// Attributes of a symbol size which are not part of the public API.
+#[derive(Debug, Clone, Copy)]
+pub struct SizeInfo {
+    pub num_data_codewords: usize,
+    pub num_ecc_blocks: usize,
+    pub num_ecc_per_block: usize,
+    pub width: usize,
+    pub height: usize,
+    pub extra_vertical_alignments: usize,
+    pub extra_horizontal_alignments: usize,
+    pub capacity_max: usize,
+    pub capacity_min: usize,
+    pub has_padding_modules: bool,
+}
+
+pub fn size_info(size: SymbolSize) -> SizeInfo {
+    let bs = size.block_setup();
+    let (capacity_max, capacity_min) = crate::symbol_size::verif::capacity(size);
+    SizeInfo {
+        num_data_codewords: size.num_data_codewords(),
+        num_ecc_blocks: bs.num_ecc_blocks,
+        num_ecc_per_block: bs.num_ecc_per_block,
+        width: bs.width,
+        height: bs.height,
+        extra_vertical_alignments: bs.extra_vertical_alignments,
+        extra_horizontal_alignments: bs.extra_horizontal_alignments,
+        capacity_max,
+        capacity_min,
+        has_padding_modules: size.has_padding_modules(),
+    }
+}
+
+/// The `SYMBOL_SIZES` table in source order.
+pub fn symbol_sizes() -> &'static [SymbolSize] {
+    crate::symbol_size::verif::symbol_sizes()
+}
+
+pub fn first_symbol_big_enough_for(list: &SymbolList, size_needed: usize) -> Option<SymbolSize> {
+    list.first_symbol_big_enough_for(size_needed)
+}
+
+pub fn max_capacity(list: &SymbolList) -> usize {
+    list.max_capacity()
+}
+
+pub fn upper_limit_for_number_of_codewords(list: &SymbolList, input_len: usize) -> Option<usize> {
+    list.upper_limit_for_number_of_codewords(input_len)
+}
+
+/// What the planner did during the last call of `optimize()` on this thread.
+#[derive(Debug, Clone, Default)]
+pub struct PlannerTrace {
+    /// Number of `Plan::step()` calls.
+    pub steps: usize,
+    /// Maximum number of plans alive after pruning.
+    pub max_live: usize,
+    /// Number of outer iterations.
+    pub iterations: usize,
+    /// Cost (in twelfths of a codeword, rounded up to a full codeword) of the chosen plan.
+    pub chosen_cost_ceil_12: Option<u32>,
+}
+
+std::thread_local! {
+    static TRACE: RefCell<PlannerTrace> = RefCell::new(PlannerTrace::default());
+    static STEP_CAP: Cell<usize> = Cell::new(usize::MAX);
+    static LAST_PLAN: RefCell<Option<Vec<(usize, EncodationType)>>> = RefCell::new(None);
+    static PLAN_OVERRIDE: RefCell<Option<Vec<(usize, EncodationType)>>> = RefCell::new(None);
+}
+
+pub(crate) fn planner_reset() {
+    TRACE.with(|t| *t.borrow_mut() = PlannerTrace::default());
+}
+
+pub(crate) fn planner_count_step() {
+    let steps = TRACE.with(|t| {
+        let mut t = t.borrow_mut();
+        t.steps += 1;
+        t.steps
+    });
+    if steps > STEP_CAP.with(|c| c.get()) {
+        panic!("verif: planner step cap exceeded");
+    }
+}
+
+pub(crate) fn planner_note_live(live: usize) {
+    TRACE.with(|t| {
+        let mut t = t.borrow_mut();
+        t.iterations += 1;
+        if live > t.max_live {
+            t.max_live = live;
+        }
+    });
+}
+
+pub(crate) fn planner_note_cost(cost_12: u32) {
+    TRACE.with(|t| t.borrow_mut().chosen_cost_ceil_12 = Some(cost_12));
+}
+
+/// Get the trace of the last `optimize()` call on this thread.
+pub fn planner_trace() -> PlannerTrace {
+    TRACE.with(|t| t.borrow().clone())
+}
+
+/// Let `optimize()` panic after this many steps (protects the harness from runaway planning).
+pub fn set_planner_step_cap(cap: usize) {
+    STEP_CAP.with(|c| c.set(cap));
+}
+
+/// Called by the encoder right after planning.
+pub(crate) fn plan_hook(plan: &mut Vec<(usize, EncodationType)>) {
+    if let Some(p) = PLAN_OVERRIDE.with(|p| p.borrow_mut().take()) {
+        *plan = p;
+    }
+    LAST_PLAN.with(|l| *l.borrow_mut() = Some(plan.clone()));
+}
+
+/// The plan the encoder used in its last run on this thread.
+pub fn last_plan() -> Option<Vec<(usize, EncodationType)>> {
+    LAST_PLAN.with(|l| l.borrow_mut().take())
+}
+
+/// Make the next encoder run on this thread use the given plan instead of the optimizer's.
+pub fn set_plan_override(plan: Option<Vec<(usize, EncodationType)>>) {
+    PLAN_OVERRIDE.with(|p| *p.borrow_mut() = plan);
+}
+
+/// Direct access to the optimizer with all its parameters.
+pub fn optimize(
+    data: &[u8],
+    written: usize,
+    mode: EncodationType,
+    symbol_list: &SymbolList,
+    enabled_modes: flagset::FlagSet<EncodationType>,
+) -> Option<Vec<(usize, EncodationType)>> {
+    crate::encodation::planner::optimize(data, written, mode, symbol_list, enabled_modes)
+}
